@@ -314,6 +314,7 @@ func (c *tunnelChannel) newStream(ctx context.Context, clientStreams, serverStre
 		c.removeStream(str.streamID)
 		return nil, err
 	}
+	verifYield("cli.new.sent", str.streamID)
 	go func() {
 		// if context gets cancelled, make sure
 		// we shut down the stream
